@@ -174,6 +174,7 @@ def fnAttributeType (path typ : Obj) : EvalM Obj :=
   | _ => throw "invalid type"
 
 def fnBeginsWith (path sub : Obj) : EvalM Obj :=
+  if path.isUndefined then pure (bool false) else   -- an attribute the item does not have begins with nothing
   match path, sub with
   | .str p, .str s => pure (bool (Bytes.isPrefixOf s p))
   | .str _, _ => throw "invalid substr type"
@@ -182,6 +183,7 @@ def fnBeginsWith (path sub : Obj) : EvalM Obj :=
   | _, _ => throw "invalid type"
 
 def fnContains (path operand : Obj) : EvalM Obj :=
+  if path.isUndefined then pure (bool false) else   -- ... and contains nothing
   match path with
   | .str p => match operand with
     | .str s => pure (bool (Bytes.isInfixOf s p))
